@@ -143,7 +143,8 @@ impl Check for C15 {
                 // configured precisions pad the printed numbers
                 let mut prec = Vec::new();
                 if rng.chance(1, 2) {
-                    let p = 2 + rng.below(3) as u32;
+                    // (a precision below the decimals of the statement's numbers pads nothing and must not round)
+                    let p = rng.below(5) as u32;
                     let comms = [case.primary.clone(), "EUR".to_string(), "USD".to_string(), "GBP".to_string()];
                     let mut y = case.config_yaml.replace("format:\n", "format:\n  commodity:\n%%\n");
                     let mut block = String::new();
@@ -316,7 +317,7 @@ impl Check for C15 {
     fn rule(&self) -> String {
         let feats: Vec<&str> = HOSTILE.iter().map(|(f, _)| *f).collect();
         format!(
-            "Each case: a generated statement for the CSV importer (60%, all layouts of C16, payee templates, conversions, charges, configured precisions 2-4) or the ISO \
+            "Each case: a generated statement for the CSV importer (60%, all layouts of C16, payee templates, conversions, charges, configured precisions 0-4) or the ISO \
              Camt053 importer (30%, batches, charges, references as codes, rules capturing payees from creditor name / remittance info with (?s)). 70% of the cases put \
              one hostile text into the free-text fields - payee, note, category, party names, remittance and additional info, references - drawn \
              from: {}. Oracle: T = canonical dump of every transaction the importer built (import + to_double_entry); text = what ImportCmd::run prints; E = \
